@@ -211,6 +211,7 @@ def stepLine (d : DState) (line : String) : DState × String :=
     | some st, some sid, some bl, some reach, some ls, some lids =>
       (d, acceptStr (accept st sid bl reach ls lids))
     | _, _, _, _, _, _ => (d, "bad-op")
+  | "note" :: _ => (d, "ok")      -- implementation-only op (manager API call without model-side effect)
   | "advinit" :: rest =>
     match kvNat? rest "strat", kvNat? rest "rid" with
     | some st, some rid =>
